@@ -26,13 +26,14 @@ type Spec struct {
 	Chains  []string // chain modules with obligations
 	NOracle int
 	Gov     bool
+	GovOnly bool // governance operations and blocks only (the bridge obligations have their own job)
 	w       *world.World
 	oracles map[string][]scen.Oracle
 	token   map[string]string // FX token contract on each chain
 }
 
 func (s *Spec) Name() string {
-	return fmt.Sprintf("c07/%s/o%d/gov=%v", strings.Join(s.Chains, "+"), s.NOracle, s.Gov)
+	return fmt.Sprintf("c07/%s/o%d/gov=%v/govonly=%v", strings.Join(s.Chains, "+"), s.NOracle, s.Gov, s.GovOnly)
 }
 
 func (s *Spec) Init() *explore.State {
@@ -57,7 +58,13 @@ func (s *Spec) Init() *explore.State {
 		scen.Observe(w, ctx, ch, os, scen.BridgeTokenClaim(ch, 1, 100, tok, "Function X", "FX", 18, ""))
 	}
 	if s.Gov {
-		// make the validators' votes decisive and cheap: they already hold all the bonded stake
+		// expedited proposals need their minimum deposit in the chain's own denom
+		gp, err := w.App.GovKeeper.Params.Get(ctx)
+		if err != nil {
+			panic(err)
+		}
+		gp.ExpeditedMinDeposit = sdk.NewCoins(world.FXCoin(20000))
+		w.MustDeliver(ctx, &govv1.MsgUpdateParams{Authority: world.GovAuthority(), Params: gp})
 	}
 	return &explore.State{W: w, Ctx: ctx, Model: explore.NoModel{}}
 }
@@ -119,6 +126,9 @@ func (s *Spec) Ops(st *explore.State) []explore.Op {
 	ops := []explore.Op{s.blockOp("Block", 5*time.Second)}
 	u1 := s.w.A("u1")
 	for _, ch := range s.Chains {
+		if s.GovOnly {
+			break
+		}
 		ch := ch
 		k := scen.Keeper(s.w, ch)
 		os := s.oracles[ch]
@@ -294,8 +304,41 @@ func (s *Spec) govOps(st *explore.State) []explore.Op {
 			}})
 		}
 	}
+	if n <= 2 {
+		// expedited proposals: one that nobody votes on (it is converted to a regular proposal when its short period ends)
+		// and one that passes in the short period
+		for _, yes := range []bool{false, true} {
+			yes := yes
+			ops = append(ops, explore.Op{Name: fmt.Sprintf("GovExpedited(yes=%v)", yes), Run: func(c *explore.State) {
+				sub := &govv1.MsgSubmitProposal{InitialDeposit: sdk.NewCoins(world.FXCoin(20000)), Proposer: s.w.A("u1").Bech(), Title: "t", Summary: "s", Metadata: "m", Expedited: true}
+				if r := s.w.Deliver(c.Ctx, sub); !r.OK() {
+					c.Outcome = "submit-rejected"
+					return
+				}
+				id, _ := gk.ProposalID.Peek(c.Ctx)
+				id--
+				if yes {
+					for _, v := range s.w.Vals {
+						if vr := s.w.Deliver(c.Ctx, govv1.NewMsgVote(v.Operator.Acc(), id, govv1.OptionYes, "")); !vr.OK() {
+							c.Outcome = "vote-rejected"
+							return
+						}
+					}
+				}
+				c.Accepted = true
+				c.Outcome = "ok"
+			}})
+		}
+	}
 	if n > 1 {
-		ops = append(ops, s.blockOp("Jump15d", 15*24*time.Hour))
+		// the proposer withdraws a proposal that is still open
+		for id := uint64(1); id < n; id++ {
+			id := id
+			if p, err := gk.Proposals.Get(ctx, id); err == nil && (p.Status == govv1.StatusVotingPeriod || p.Status == govv1.StatusDepositPeriod) {
+				ops = append(ops, s.msgOp(fmt.Sprintf("GovCancel(%d)", id), func(sdk.Context) sdk.Msg { return &govv1.MsgCancelProposal{ProposalId: id, Proposer: s.w.A("u1").Bech()} }))
+			}
+		}
+		ops = append(ops, s.blockOp("Jump1d", 24*time.Hour+time.Minute), s.blockOp("Jump15d", 15*24*time.Hour))
 	}
 	return ops
 }
